@@ -253,3 +253,68 @@ Qed.
 (* DATEDIFF ignores the time parts, before and after 1970 alike *)
 Theorem datediff_dt_ignores_time a ta b tb : datediff_dt a ta b tb = datediff_go a b.
 Proof. reflexivity. Qed.
+
+(* ---------- TIMESTAMPDIFF(MONTH): antisymmetric, zero on equal moments, and n after adding n months ---------- *)
+Lemma moment_lt_irrefl a : moment_lt a a = false.
+Proof.
+  destruct a as [[[y m] d] t]. unfold moment_lt. rewrite !Z.ltb_irrefl, !Z.eqb_refl. reflexivity.
+Qed.
+Lemma moment_lt_spec y1 m1 d1 t1 y2 m2 d2 t2 :
+  moment_lt ((y1, m1, d1), t1) ((y2, m2, d2), t2) = true <->
+  (y1 < y2 \/ (y1 = y2 /\ (m1 < m2 \/ (m1 = m2 /\ (d1 < d2 \/ (d1 = d2 /\ t1 < t2)))))).
+Proof.
+  unfold moment_lt. rewrite !orb_true_iff, !andb_true_iff, !orb_true_iff, !andb_true_iff, !orb_true_iff, !andb_true_iff.
+  rewrite !Z.ltb_lt, !Z.eqb_eq. reflexivity.
+Qed.
+Lemma moment_lt_asym a b : moment_lt a b = true -> moment_lt b a = false.
+Proof.
+  destruct a as [[[y1 m1] d1] t1], b as [[[y2 m2] d2] t2]. intros H.
+  destruct (moment_lt (y2, m2, d2, t2) (y1, m1, d1, t1)) eqn:E; [|first [reflexivity|exact E]]. exfalso.
+  apply moment_lt_spec in H. apply moment_lt_spec in E. lia.
+Qed.
+
+Theorem months_diff_refl a : months_diff a a = 0.
+Proof.
+  unfold months_diff. rewrite moment_lt_irrefl. destruct a as [[[y m] d] t]. unfold months_between.
+  rewrite !Z.ltb_irrefl, Z.eqb_refl. cbn [andb]. lia.
+Qed.
+
+Theorem months_diff_antisym a b : moment_lt a b = true -> months_diff b a = - months_diff a b.
+Proof.
+  intros H. unfold months_diff. rewrite H. rewrite (moment_lt_asym a b H). reflexivity.
+Qed.
+
+(* adding n >= 0 months without clamping, same time of day: the difference is exactly n months *)
+Theorem months_diff_add_months y m d t n :
+  valid_date (y, m, d) = true -> no_clamp_months (y, m, d) n = true -> 0 <= n ->
+  months_diff ((y, m, d), t) (add_months (y, m, d) n, t) = n.
+Proof.
+  intros Hv Hnc Hn. pose proof Hv as Hv2. unfold valid_date in Hv2.
+  repeat (apply andb_prop in Hv2; destruct Hv2 as [Hv2 ?]).
+  repeat match goal with H : (_ <=? _) = true |- _ => apply Z.leb_le in H end.
+  unfold no_clamp_months in Hnc. apply Z.leb_le in Hnc. unfold add_months.
+  set (total := m - 1 + n) in *. set (ty := y + total / 12) in *. set (tm := total mod 12 + 1) in *.
+  assert (Htm : 1 <= tm <= 12) by (unfold tm; pose proof (Z.mod_pos_bound total 12 ltac:(lia)); lia).
+  replace (days_in_month ty tm <? d) with false by (symmetry; apply Z.ltb_ge; lia).
+  assert (Hv1 : valid_date (ty, tm, d) = true).
+  { unfold valid_date. repeat (apply andb_true_intro; split); apply Z.leb_le; lia. }
+  rewrite (go_date_valid_id _ _ _ Hv1).
+  pose proof (Z.div_mod total 12 ltac:(lia)) as Hdm. pose proof (Z.mod_pos_bound total 12 ltac:(lia)) as Hmb.
+  assert (Hq : 0 <= total / 12) by (apply Z.div_pos; unfold total; lia).
+  assert (Hlt : moment_lt ((ty, tm, d), t) ((y, m, d), t) = false).
+  { unfold moment_lt. rewrite !Z.ltb_irrefl.
+    destruct (ty <? y) eqn:E1; [apply Z.ltb_lt in E1; unfold ty in *; lia|].
+    destruct (ty =? y) eqn:E2; [|reflexivity]. apply Z.eqb_eq in E2.
+    destruct (tm <? m) eqn:E3; [apply Z.ltb_lt in E3; exfalso; unfold ty, tm, total in *; lia|].
+    cbn [orb andb]. destruct (tm =? m); [|reflexivity]. destruct (d =? d); reflexivity. }
+  unfold months_diff. cbv beta iota.
+  match goal with |- (if ?c then _ else _) = _ => replace c with false by (symmetry; exact Hlt) end.
+  unfold months_between. rewrite Z.ltb_irrefl, Z.eqb_refl, Z.ltb_irrefl. cbn [andb].
+  unfold ty, tm, total in *. lia.
+Qed.
+
+(* ---------- CAST('YYYY-MM-DD' AS DATE) ---------- *)
+Theorem cast_date_valid_exact y m d : valid_date (y, m, d) = true -> cast_date_str y m d = (y, m, d).
+Proof. intros H. unfold cast_date_str. now rewrite H. Qed.
+Lemma cast_date_misparses : cast_date_str 2023 2 30 = (2023, 2, 3) /\ valid_date (2023, 2, 30) = false.
+Proof. split; vm_compute; reflexivity. Qed.
